@@ -87,10 +87,37 @@ Definition RDPE_MIN : rdpe := Rdpe fhalf LONG_MIN.
 Definition cdpe_zero : cdpe := Cdpe rdpe_zero rdpe_zero.
 Definition cdpe_one : cdpe := Cdpe rdpe_one rdpe_zero.
 
-(* rdpe_Norm: m = frexp (m, &i); if (m == 0.0) e = 0; else e += i; *)
-Definition rdpe_norm (x : rdpe) : rdpe :=
+(* rdpe_Norm as it was: m = frexp (m, &i); if (m == 0.0) e = 0; else e += i;  (wraps) *)
+Definition rdpe_norm_old (x : rdpe) : rdpe :=
   let (m', i) := ffrexp (mnt x) in
   if feq0 m' then Rdpe m' 0 else Rdpe m' (wrap64 (esp x + i)).
+
+(* helper rdpe_set_esp (e, a, b, sub) of fixes/C12_rdpe_exponent_saturation.patch:
+   Esp (e) = a + b or a - b for a number whose mantissa is set; zero mantissa -> exponent 0;
+   out of the range of long -> mantissa +-1/2 (sign kept), exponent LONG_MAX / LONG_MIN *)
+Definition rdpe_set_esp (x : rdpe) (a b : Z) (sub : bool) : rdpe :=
+  if feq0 (mnt x) then Rdpe (mnt x) 0
+  else
+    let over := if sub then (b <? 0) && (LONG_MAX + b <? a) else (0 <? b) && (LONG_MAX - b <? a) in
+    let under := if sub then (0 <? b) && (a <? LONG_MIN + b) else (b <? 0) && (a <? LONG_MIN - b) in
+    if over || under
+    then Rdpe (if flt0 (mnt x) then fmhalf else fhalf) (if over then LONG_MAX else LONG_MIN)
+    else Rdpe (mnt x) (if sub then a - b else a + b).
+
+(* helper rdpe_shift_esp (e, i, sub), i unsigned long: LONG_MAX-sized steps through rdpe_set_esp
+   (at most two rounds of the while loop for i < 2^64) *)
+Definition rdpe_shift_esp (x : rdpe) (i : Z) (sub : bool) : rdpe :=
+  let step := fun y : rdpe => rdpe_set_esp y (esp y) LONG_MAX sub in
+  if LONG_MAX <? i then
+    let x1 := step x in
+    let i1 := i - LONG_MAX in
+    if LONG_MAX <? i1 then let x2 := step x1 in rdpe_set_esp x2 (esp x2) (i1 - LONG_MAX) sub
+    else rdpe_set_esp x1 (esp x1) i1 sub
+  else rdpe_set_esp x (esp x) i sub.
+
+(* rdpe_Norm (fixed): m = frexp (m, &i); rdpe_set_esp (E, Esp (E), i, 0); *)
+Definition rdpe_norm (x : rdpe) : rdpe :=
+  let (m', i) := ffrexp (mnt x) in rdpe_set_esp (Rdpe m' (esp x)) (esp x) i false.
 Definition cdpe_norm (c : cdpe) : cdpe := Cdpe (rdpe_norm (cre c)) (rdpe_norm (cim c)).
 
 (* ---- denotation (used by the statements, not by the executable model) ------ *)
